@@ -403,8 +403,66 @@ func GenCrawl(t *Tape, o CrawlOpts) *Scenario {
 			break
 		}
 	}
+	if o.HQ {
+		plan := &HQPlan{Faults: map[string][]string{}}
+		if o.Faults {
+			for _, kind := range []string{"add", "delete", "get", "seencheck"} {
+				n := c.N(4)
+				for i := 0; i < n; i++ {
+					plan.Faults[kind] = append(plan.Faults[kind], c.Pick("", "500", "reset-before", "reset-after", "timeout", "500"))
+				}
+			}
+		}
+		g.Sc.HQ = plan
+		cfg.HQBatchSize = 1 + c.N(4)
+	}
 	g.Sc.StopAtIdle = true
 	g.Sc.Sched.MaxSteps = 60000
 	g.Sc.Sched.MaxSimSec = 4 * 3600
 	return g.Sc
+}
+
+// WithDiskHistory adds a boundary-crossing free-space history (one reading per watchdog tick) to a crawl scenario.
+func WithDiskHistory(t *Tape, sc *Scenario) {
+	g := &Gen{T: t}
+	bs := int64([]int{512, 4096, 65536}[g.N(3)])
+	totalGiB := uint64([]int{64, 200, 256, 300, 1000}[g.N(5)])
+	total := totalGiB << 30
+	if g.Chance(1, 3) {
+		sc.Cfg.MinSpaceGiB = float64([]int{1, 20, 100}[g.N(3)])
+	}
+	var thr uint64
+	if sc.Cfg.MinSpaceGiB > 0 {
+		thr = uint64(sc.Cfg.MinSpaceGiB) << 30
+	} else if totalGiB <= 256 {
+		thr = (50 << 30) * totalGiB / 256
+	} else {
+		thr = 50 << 30
+	}
+	n := 3 + g.N(10)
+	// first reading (start-up check) must be acceptable, or Zeno exits before anything can be observed
+	sc.Disk = append(sc.Disk, DiskReading{Blocks: total / uint64(bs), Bavail: (thr + (10 << 30)) / uint64(bs), Bsize: bs})
+	for i := 0; i < n; i++ {
+		var free uint64
+		switch g.N(6) {
+		case 0:
+			free = thr
+		case 1:
+			free = thr - uint64(bs)
+		case 2:
+			free = thr + uint64(bs)
+		case 3:
+			free = thr / 2
+		case 4:
+			free = 0
+		default:
+			free = thr + (5 << 30)
+		}
+		if free > total {
+			free = total
+		}
+		sc.Disk = append(sc.Disk, DiskReading{Blocks: total / uint64(bs), Bavail: free / uint64(bs), Bsize: bs})
+	}
+	// end with plenty of space so that the crawl can drain
+	sc.Disk = append(sc.Disk, DiskReading{Blocks: total / uint64(bs), Bavail: (thr + (20 << 30)) / uint64(bs), Bsize: bs})
 }
